@@ -43,7 +43,7 @@ import tskit
 
 from lib import gen
 from lib.harness import case_rng
-from lib.model import NODE_IS_SAMPLE, NULL, RowModel, allele_at, forest, isclose, mutation_parents
+from lib.model import NODE_IS_SAMPLE, NULL, RowModel, allele_at, forest, isclose, mutation_parents, sorted_copy
 from lib.props.c14 import (_first_diff, _msorted, bad_offsets, compare_individuals, diff_models, edge_key,
                            mask_individuals, msprime_model, read_back, ref_dedup_sites, ref_sort, ref_subset,
                            stale_index)
@@ -1224,6 +1224,28 @@ def canon_cross_checks(ctx, case, rng, s2, canon_tc, canon_bytes, remove, detail
 # --------------------------------------------------------------------------- compute_mutation_parents
 
 
+def true_parents(model):
+    """Nearest mutation above at the site, independent of the order in which mutations on DIFFERENT nodes are listed
+    (mutations on one node: earlier rows are older).  lib.model.mutation_parents only looks at earlier rows, which is the
+    same thing for correctly ordered tables but not for a child listed before its parent."""
+    out = [NULL] * len(model.mutations)
+    for j, st in enumerate(model.sites):
+        fr = forest(model, st[0])
+        by_node = {}
+        for k in model.site_mutations(j):
+            by_node.setdefault(model.mutations[k][1], []).append(k)
+        for u, lst in by_node.items():
+            for a, b in zip(lst, lst[1:]):
+                out[b] = a
+            v = u
+            while v in fr.parent:
+                v = fr.parent[v]
+                if v in by_node:
+                    out[lst[0]] = by_node[v][-1]
+                    break
+    return out
+
+
 def run_parents(case, ctx):
     rng = case_rng(case)
     m = gen.gen_topology(rng, max_nodes=10, max_bp=4)
@@ -1232,9 +1254,55 @@ def run_parents(case, ctx):
         gen.decorate_meta(rng, m)
     want = [mu[3] for mu in m.mutations]
     nmu = len(m.mutations)
-    mode = rng.choice(["null", "arbitrary", "kept", "swap"])
+    mode = rng.choice(["null", "arbitrary", "kept", "swap", "swap-first-two"])
     w = m.copy()
     swapped = None
+    if mode == "swap-first-two":
+        # the FIRST listed mutation of a site is a child of the second one and everything else is in order: the site's
+        # first row is where an implementation is most tempted to assume "no parent"
+        firsts = {}
+        for k, mu in enumerate(m.mutations):
+            firsts.setdefault(mu[0], k)
+        cand = [j for j in firsts.values() if j + 1 < len(m.mutations) and m.mutations[j + 1][0] == m.mutations[j][0]
+                and m.mutations[j + 1][3] == j and m.mutations[j + 1][1] != m.mutations[j][1]
+                and m.mutations[j + 1][4] == m.mutations[j][4]]
+        if not cand:
+            # make one: a site on some edge, one mutation above the parent end and one above the child end (unknown times)
+            es = [e for e in m.edges if e[1] > e[0]]
+            used = {st[0] for st in m.sites}
+            place = None
+            for l, r, pn, cn, _ in rng.sample(es, len(es)):
+                xs = [x for x in (l, (l + r) / 2, (3 * l + r) / 4) if l <= x < r and x not in used]
+                if xs:
+                    place = (rng.choice(xs), pn, cn)
+                    break
+            if place is None:
+                mode = "null"
+            else:
+                x, pn, cn = place
+                m2 = m.copy()
+                sid = len(m2.sites)
+                k0 = len(m2.mutations)
+                m2.sites = list(m2.sites) + [(x, "A", b"")]
+                m2.mutations = list(m2.mutations) + [(sid, pn, "C", NULL, None, b""), (sid, cn, "G", k0, None, b"")]
+                m = sorted_copy(m2)
+                want = [mu[3] for mu in m.mutations]
+                nmu = len(m.mutations)
+                w = m.copy()
+                firsts = {}
+                for k, mu in enumerate(m.mutations):
+                    firsts.setdefault(mu[0], k)
+                cand = [j for j in firsts.values() if j + 1 < len(m.mutations) and m.mutations[j + 1][0] == m.mutations[j][0]
+                        and m.mutations[j + 1][3] == j and m.mutations[j + 1][1] != m.mutations[j][1]
+                        and m.mutations[j + 1][4] == m.mutations[j][4]]
+        if cand:
+            pj = rng.choice(cand)
+            rows = list(w.mutations)
+            rows[pj], rows[pj + 1] = rows[pj + 1], rows[pj]
+            w.mutations = [(s_, u, d, NULL, t, md) for s_, u, d, _, t, md in rows]
+            swapped = (pj, pj + 1)
+        elif mode == "swap-first-two":
+            mode = "null"
     if mode == "swap":
         # a mutation listed before the mutation above it on a *different* node: must be refused
         pairs = [(k, mu[3]) for k, mu in enumerate(m.mutations) if mu[3] != NULL and m.mutations[mu[3]][1] != mu[1]
@@ -1260,7 +1328,7 @@ def run_parents(case, ctx):
     tc = build_tc(w, case_rng(case, "build"), ctx, index=True)
     if not tc.has_index():
         tc.build_index()
-    unindexed = mode != "swap" and rng.random() < 0.08
+    unindexed = mode not in ("swap", "swap-first-two") and rng.random() < 0.08
     if unindexed:
         # E7: neither docstring says what happens without an index ("must be ... indexed" for the times): a
         # LibraryError, or the right answer
@@ -1283,14 +1351,18 @@ def run_parents(case, ctx):
         err = None
     except LIBERR as e:
         err = e
-    if mode == "swap":
+    if mode in ("swap", "swap-first-two"):
         ctx.count("parents:child-before-parent-rejected")
+        if mode == "swap-first-two":
+            ctx.count("parents:first-row-of-site-is-a-child")
         # only decidable when the swapped order is not itself a valid one (several mutations on unrelated
         # branches): the reference parents of the swapped rows must then point forward
         if err is None:
             got = from_tables(tc)
             fwd = [k for k, mu in enumerate(got.mutations) if mu[3] > k]
-            refp = mutation_parents(w)
+            # returning without an error is only right if every mutation got the nearest mutation above it (which for the
+            # swapped rows is a LATER row, so a correct implementation has to refuse)
+            refp = true_parents(w)
             if [mu[3] for mu in got.mutations] != refp or fwd:
                 ctx.violation("compute_mutation_parents/child-before-parent-accepted",
                               f"mutation rows {swapped} swapped (child listed before the mutation above it on another "
